@@ -15,15 +15,17 @@
        1..255 (C01_string_roundtrip): by induction over the string, through the scanner's STRING start condition;
    (4) a float rendering that has the syntax of libconfig_format_double's output and does not overflow is read
        as strtod of that text (C01_lex_float): the re-read float is the value of its printf-style rendering;
-   (5) runs of such steps are what lex_buf does with the fuel lex_depth provides (C01_steps_are_lex_buf).
-   What is NOT proved: the assembly of (1)-(5) over a whole tree through the parser into "config_read_string
-   (config_write c) is equivalent to c and writes the same text".  That statement is checked on every run of the
+   (5) runs of such steps are what lex_buf does with the fuel lex_depth provides (C01_steps_are_lex_buf);
+   (6) assembled over the whole tree: the scanner reads the text of config_write, for every writable tree and
+       every option vector, as exactly the token stream of its pieces (C01_written_text_tokens).
+   What is NOT proved: the parser half - that this token stream is parsed back into an equivalent tree - and
+   hence the final "config_read_string (config_write c) is equivalent to c and writes the same text".  That statement is checked on every run of the
    C01 check on the real library (rtrip) and between model and library.  Known findings (known_findings.json):
    F1/F1b/F1c (float renderings), F2 (keyword-named members: the hypothesis of C01_lex_name), F3 (nesting). *)
 From Coq Require Import List ZArith NArith Bool.
 Import ListNotations.
 From LC Require Import Base BaseFacts Tree Fp Api ScanAction FlexEngine Tokens Lexer Reader Regex RegexFacts Bisim
-  ScannerSpec ScannerCert ClassCheck ClassCert LiteralFacts RoundFacts LexRound Writer WriterFacts.
+  ScannerSpec ScannerCert ClassCheck ClassCert LiteralFacts RoundFacts LexRound LexWrite Writer WriterFacts.
 From LC.gen Require Import Consts ScannerTables.
 Local Open Scope Z_scope.
 
@@ -155,6 +157,27 @@ Theorem C01_steps_are_lex_buf : forall atof FS incdir incf maxd di st b toks st'
      (toks ++ t2, stop, st2, l)).
 Proof. exact lex_buf_steps. Qed.
 Print Assumptions C01_steps_are_lex_buf.
+
+
+(* ---- (6) the whole text: for every configuration whose root group is not empty and whose tree is [writable]
+   (documented scalar types with values in range, floats whose rendering has format_double's syntax and does
+   not overflow, strings over 1..255, members with API-valid names that are not boolean keywords), under every
+   combination of options, tab width, precision and default format (c is arbitrary), the token stream the
+   parser receives for the text of config_write is exactly the tokens of the pieces, followed by end of input:
+   nothing is merged, split, lost or misread anywhere in the text ---- *)
+Theorem C01_written_text_tokens : forall fmt_double atof FS c kids f h l fi,
+  c_root c = Setting None PGroup kids f h l fi -> kids <> [] -> writable fmt_double atof c (c_root c) ->
+  exists toks, lex_top atof FS c None (config_write fmt_double c) = (toks, StopEOB) /\
+               map lt_tok toks = flat_map (piece_tok fmt_double atof c) (pieces c (c_root c) 0) ++ [TkEOF].
+Proof. exact lex_top_written. Qed.
+Print Assumptions C01_written_text_tokens.
+
+(* every piece of a writable tree is followed by a byte it may be followed by (what makes (6) go through) *)
+Theorem C01_pieces_chain : forall fmt_double atof c s, writable fmt_double atof c s ->
+  forall depth d rest, 0 < depth -> value_follow s d ->
+    chained fmt_double c (pieces c s depth) (d :: rest) /\ Forall (piece_wf fmt_double atof c) (pieces c s depth).
+Proof. exact writable_chain. Qed.
+Print Assumptions C01_pieces_chain.
 
 (* non-vacuity: a string with a quote, a backslash, a newline, a control byte and a high byte, evaluated on the
    model: the scanner returns exactly that string *)
